@@ -217,7 +217,7 @@ def run(tier, seed, replay):
     # delivered late, out of order or not at all; after every client frame the per-entity history must still contain every tick
     # it reported before (inside its window), MutateTickReceived fires at most once per tick
     import simcheck
-    kws = [dict(track=True, weights=dict(sop=8.0, sframe=4.0)), dict(track=True, max_size=1, burst=0.1), dict(track=True, nclients=2, weights=dict(sop=7.0)), dict(track=False, weights=dict(sop=8.0, sframe=4.0))]
+    kws = [dict(track=True, weights=dict(sop=8.0, sframe=4.0)), dict(track=True, max_size=1, burst=0.1), dict(track=True, nclients=2, weights=dict(sop=7.0)), dict(track=False, weights=dict(sop=8.0, sframe=4.0)), dict(track=True, sessions=True, weights=dict(session=0.6))]
     o2, d2 = simcheck.sim_collect(rep, "C12", tier, rng, seed, kws, 80, 8000, oracle_props={"C12"},
                                   rule_extra=", per-entity confirm histories compared frame by frame (a confirmed tick stays confirmed inside the window)")
     if o2 and not oracle_fail:
